@@ -17,8 +17,8 @@ from vt.oracles import constraint_semantics as CS
 
 ID = 'C07'
 TIERS = {
-    'quick': dict(shards=16, cases=330, watchdog_s=900),
-    'thorough': dict(shards=16, cases=16000, watchdog_s=7000),
+    'quick': dict(shards=16, cases=2000, watchdog_s=900),
+    'thorough': dict(shards=16, cases=60000, watchdog_s=7000),
 }
 RULE = ('case = one generated pandas frame (25 recognised column kinds, any null pattern, 0-60 rows, 1-25 distinct '
         'strings around the 20-category threshold) or one SQLite table (integer/real/text/varchar/boolean/datetime '
